@@ -4,6 +4,7 @@ package codecprops
 // generated unmarshaler or the raw-record decoder panic, hang or index outside its input.
 
 import (
+	"encoding/json"
 	"fmt"
 	"os"
 	"reflect"
@@ -364,12 +365,30 @@ type anyCase struct {
 	Shape string `json:"shape"`
 }
 
+type namedArray [2]byte
+type namedBytes []byte
+
 func genAny(rt *rapid.T, depth int) (any, string) {
-	k := rapid.IntRange(0, 22).Draw(rt, "anykind")
-	if depth >= 3 && k >= 14 {
+	k := rapid.IntRange(0, 29).Draw(rt, "anykind")
+	if depth >= 3 && k >= 14 && k <= 22 {
 		k = k % 14
 	}
 	switch k {
+	case 23:
+		return [4]byte{'f', 'i', 'x', '4'}, "[4]byte"
+	case 24:
+		return namedArray{1, 2}, "named [2]byte"
+	case 25:
+		a := [3]byte{7, 8, 9}
+		return &a, "*[3]byte"
+	case 26:
+		return [][2]byte{{1, 2}, {3, 4}}, "[][2]byte"
+	case 27:
+		return map[string][1]byte{"s": {65}, "k": {66}}, "map[string][1]byte"
+	case 28:
+		return namedBytes("named"), "named []byte"
+	case 29:
+		return json.RawMessage(`{"s":"x"}`), "json.RawMessage"
 	case 0:
 		return nil, "nil"
 	case 1:
